@@ -485,6 +485,14 @@ Op("diagram_eval", [ANY, ANY], lambda a, p: TensorDiagram((a[0], a[1])).calculat
 Op("diagram_product", [TEN_BOUND, TEN_BOUND], lambda a, p: _edgeless(a), samedim=False,
    api=("TensorDiagram.add_node", "TensorDiagram.calculate", "TensorDiagram.copy"))
 
+Op("infty_hyperplane", [], lambda a, p: __import__("geometer.point", fromlist=["x"]).infty_hyperplane(p["dim"]),
+   lambda rng, m, o: {"dim": rng.choice([2, 3])}, api="infty_hyperplane")
+Op("diagram_copy_copy", [TEN_BOUND, TEN_BOUND],
+   lambda a, p: __import__("copy").copy(TensorDiagram((a[0], a[1]))).calculate(), samedim=False,
+   api=("TensorDiagram.__copy__", "TensorDiagram.copy"))
+Op("replace_ellipsis", [ANY], lambda a, p: repr(__import__("geometer.utils.indexing", fromlist=["x"]).replace_ellipsis(
+    a[0].rank, (Ellipsis, 0))), api="utils.replace_ellipsis")
+
 # utils on the coordinate arrays of pool objects (the arrays are the operands' own data)
 Op("u_det", [SQUARE], lambda a, p: U.det(a[0].array), api="utils.det")
 Op("u_inv", [SQUARE], lambda a, p: U.inv(a[0].array), weight=2, api="utils.inv")
@@ -573,8 +581,10 @@ def uncatalogued_api() -> list[str]:
     for op in OPS.values():
         covered.update(op.api)
     out = []
+    not_operations = {"UFuncParameters", "SubspaceTensor.mirror", "SubspaceTensor.perpendicular",  # TypedDict, abstract
+                      "utils.maybe_dispatch_ufunc_to_dunder_op"}  # reached through every ufunc_* op
     for n in public_api():
-        if n in covered:
+        if n in covered or n in not_operations:
             continue
         # a class counts as covered when any of its constructors/methods is
         if "." not in n and any(c == n or c.startswith(n + ".") for c in covered):
